@@ -72,6 +72,15 @@ def run_hypothesis(cl, ctx, n, hseed, shrink, skip_first=False):
     t()
   except Violation:
     return last
+  except hypothesis.errors.Flaky as e:
+    # the oracle reported a violation on a real execution, but re-executing
+    # the same case immediately did not reproduce it: the behaviour depends
+    # on process state left by earlier cases (e.g. a module-level cache)
+    if last:
+      last['msg'] += (' [state-dependent: not reproduced when the case was '
+                      're-executed in the same process]')
+      return last
+    raise
   return None
 
 
